@@ -815,13 +815,13 @@ pub fn c13(thorough: bool, rng: &mut Rng, out: &mut Out) {
     let (nw, steps) = if thorough { (30_000, 150) } else { (600, 60) };
     run_walks("C13", rng, out, nw, steps, 1);
     known_header_variants("C13", out);
-    overlong_runs(out);
+    overlong_runs(thorough, out);
 }
 
 /// Runs of chunks that never start a new page (no offset 0) and pile up far more than a page — past 64 KiB of
 /// pending data — before the count arrives: the whole run is one over-long page and is discarded, however its tail
 /// happens to measure.
-fn overlong_runs(out: &mut Out) {
+fn overlong_runs(thorough: bool, out: &mut Out) {
     let (w, h) = (90u32, 7u32);
     let page_chunks = 6usize;
     for (chunk_len, nchunks) in [(16usize, 4111 + page_chunks), (16, 4112), (16, 4200), (255, 258 + 1), (255, 300)] {
@@ -836,6 +836,38 @@ fn overlong_runs(out: &mut Out) {
         let last = out.impls[i].rsplit(' ').next().unwrap_or("").to_string();
         if last.contains("/1/") || out.impls[i].contains("PANIC") {
             out.fail(i, format!("C13 a run of {} chunks of {} bytes without a page start left the sign with a page (or panicking): {}", nchunks, chunk_len, last));
+        }
+    }
+    // the same around every power-of-two amount of pending data a bounded buffer might be cut at (32 / 64 / 128 KiB):
+    // `junk` chunks that bring the buffer to just below, exactly at and just past the mark, followed by exactly one
+    // page's worth of chunks (none at offset 0) and the count — a sign that drops the old part of an over-long buffer
+    // finds a "page" in what is left
+    let mut shapes: Vec<(usize, usize)> = vec![];
+    for base in if thorough { vec![2048usize, 4096, 8192] } else { vec![4096usize] } {
+        for d in 0..4 {
+            shapes.push((16, base + d - 1));
+        }
+    }
+    for k in 256..=259 {
+        shapes.push((255, k));
+    }
+    for (junk_len, junk) in shapes {
+        let mut line = format!("vbus M,0005 RO,0005,0 SD,0000,{} CS,0001 RO,0005,1", to_hex(&tiny_cfg(w, h, false)));
+        for k in 0..junk {
+            let d: Vec<u8> = vec![(k % 251) as u8; junk_len];
+            line.push_str(&format!(" SD,{:04X},{}", 16 + (k % 4000) * 16, to_hex(&d)));
+        }
+        let page = Page::new(PageId(7), w, h);
+        for (ci, c) in page.as_bytes().chunks(16).enumerate() {
+            line.push_str(&format!(" SD,{:04X},{}", 16 + ci * 16, to_hex(c)));
+        }
+        let n = junk + page_chunks;
+        line.push_str(&format!(" CS,{:04X} QS,0005", n));
+        let i = out.case(line, true);
+        out.stat("vsign.overlong-run-then-exact-page-tail");
+        let last = out.impls[i].rsplit(' ').next().unwrap_or("").to_string();
+        if last.contains("/1/") || out.impls[i].contains("PANIC") {
+            out.fail(i, format!("C13 {} chunks of {} bytes and then one page's worth, none starting a page, left the sign with a page (or panicking): {}", junk, junk_len, last));
         }
     }
 }
